@@ -23,6 +23,56 @@ EXPLANATION = (
     "conversions lie between the request and the parser: no trimming / case folding / replacing).")
 
 
+def f64_tables(ctx, c, wb, rb):
+    """R12.2 as two decision tables (constant propagation through local helpers, newtype wrappers, combinators): the writer
+    evaluated for +inf, -inf, NaN (either sign) and finite values, the reader for the two spellings and for other texts.
+    Returns False when the code leaves the interpretable fragment (the path-based form of the rule is used instead)."""
+    from .. import minterp
+    F = ctx.F
+    I = minterp.Interp(F, c, inline=lambda d_, rid: rid.startswith("conjure_object::") and rid not in (wb.id, rb.id), max_depth=4)
+    nan = float("nan")
+    wrows, rrows = [], []
+    try:
+        for label, v, spelling in (("+inf", float("inf"), "Infinity"), ("-inf", float("-inf"), "-Infinity"), ("NaN", nan, None), ("-NaN", -nan, None),
+                                   ("1.5", 1.5, None), ("-0.0", -0.0, None), ("1e300", 1e300, None)):
+            r = I.run(wb, [v] + [("sym", "fmt")] * (wb.argc - 1))
+            if not (isinstance(r, tuple) and r and r[0] == "call" and r[1].endswith("Display::fmt") or isinstance(r, tuple) and r and r[0] == "call" and "Display" in r[1]):
+                return False
+            wrows.append((label, v, spelling, r[2][0] if r[2] else None))
+
+        def find_parse(x, text):
+            if isinstance(x, tuple) and x and x[0] == "call":
+                if ("parse" in x[1] or "from_str" in x[1]) and any(a == text for a in x[2]):
+                    return True
+                return any(find_parse(a, text) for a in x[2])
+            if isinstance(x, (tuple, list)):
+                return any(find_parse(a, text) for a in x if isinstance(a, (tuple, list)))
+            return False
+        for text, exp in (("Infinity", float("inf")), ("-Infinity", float("-inf")), ("1.5", None), ("inf", None), ("-inf", None), ("infinity", None), ("NaN", None), ("", None)):
+            r = I.run(rb, [text])
+            rrows.append((text, exp, r, find_parse(r, text)))
+    except minterp.Unsupported:
+        return False
+    for label, v, spelling, arg in wrows:
+        if spelling is not None:
+            ctx.check(arg == spelling, "R12.2", wb.loc(), f"f64|writes|{spelling}", f"Plain for f64 writes {arg!r} for {label}; the Conjure spelling is {spelling!r}", instance=f"f64: {spelling!r} iff == {label}")
+        else:
+            same = isinstance(arg, float) and (arg == v or (arg != arg and v != v))
+            ctx.check(same, "R12.2", wb.loc(), "f64|display", f"Plain for f64 writes {arg!r} for {label}; values that are not an infinity must go to Display of the value itself", instance=f"f64: {label} -> Display (NaN prints as NaN)")
+    ctx.ok("R12.2", wb.loc(), "f64 writer: 2 spellings + Display (decision table over 7 value classes)")
+    got = {}
+    for text, exp, r, parses in rrows:
+        if exp is not None:
+            val = r[3][0] if minterp.is_adt(r) and r[1] == "core::result::Result" and r[2] == 0 and r[3] else None
+            got[text] = val
+        else:
+            ctx.check(parses and not (minterp.is_adt(r) and r[2] == 0 and r[3] and isinstance(r[3][0], float)), "R12.2", rb.loc(), "f64|reader-fallback",
+                      f"FromPlain for f64 must defer to str::parse::<f64> for the text {text!r} (got {minterp.show(I, r)[:80]})", instance="f64 reader: otherwise str::parse::<f64>")
+    ctx.check(got == {"Infinity": float("inf"), "-Infinity": float("-inf")}, "R12.2", rb.loc(), "f64|reader-table", f"FromPlain for f64 maps {got}; expected Infinity -> +inf, -Infinity -> -inf (the writer's spellings)",
+              instance="f64 reader: Infinity -> inf, -Infinity -> -inf")
+    return True
+
+
 def run(ctx):
     ctx.explanation = EXPLANATION
     ctx.assumptions = ["Display/FromStr of bool, i32, f64 (finite and NaN), String, Uuid and chrono's RFC 3339 formatter/parser are mutually inverse (std / uuid / chrono)"]
@@ -91,6 +141,8 @@ def run(ctx):
         ctx.check(sorted(disp) == ["f64", "str"], "R12.2", wb.loc(), "f64|writer-complete", f"Plain for f64 (table form) must write a table spelling or defer to Display of the value; Display calls on {disp}", instance="f64 writer: table spelling or Display")
         ps = [t for x in [rb] + c.closures_of(rb) for _, t in x.calls() if t["call"]["name"] == "parse" and [tystr(y) for y in t["call"]["substs"]] == ["f64"]]
         ctx.check(len(ps) == 1, "R12.2", rb.loc(), "f64|reader-fallback", "FromPlain for f64 must defer to str::parse::<f64> otherwise", instance="f64 reader: otherwise str::parse::<f64>")
+    elif wb is not None and rb is not None and f64_tables(ctx, c, wb, rb):
+        pass
     elif wb is not None and rb is not None:
         cfg = CFG(wb)
         tr = Tracer(wb)
@@ -139,6 +191,10 @@ def run(ctx):
     bw = c.methods_of_impl(pl["[u8]"]).get("fmt") if "[u8]" in pl else None
     br = c.methods_of_impl(fp["bytes::bytes::Bytes"]).get("from_plain") if "bytes::bytes::Bytes" in fp else None
     if bw is not None and br is not None:
+        # the rendering / parsing may sit in a private helper shared by the [u8] and Bytes impls
+        from .. import inline as _inline
+        bw = _inline.expand(c, bw, depth=2, pred=lambda cb: cb.d.get("vis") != "pub")
+        br = _inline.expand(c, br, depth=2, pred=lambda cb: cb.d.get("vis") != "pub")
         ew, er = c01.uses_b64_standard(bw), c01.uses_b64_standard(br)
         disp = [t for _, t in bw.calls() if "Base64Display" in t["call"]["def"]]
         dec = [t for _, t in br.calls() if t["call"]["def"] == "base64::engine::Engine::decode"]
@@ -172,6 +228,15 @@ def run(ctx):
         n += 1
         if ty == "bytes::bytes::Bytes":
             ok = len(calls) == 1 and calls[0]["call"]["def"] == PLAIN + "::fmt" and tystr(calls[0]["call"]["substs"][0]) == "[u8]"
+            if not ok and "[u8]" in pl:
+                # or: renders through the same private helper / the same external calls and engine as Plain for [u8]
+                from .. import inline as _inline
+                TRANSP = ("core::ops::deref::Deref::deref", "core::convert::AsRef::as_ref", "core::borrow::Borrow::borrow")
+
+                def sig(x):
+                    ex = _inline.expand(c, x, depth=2, pred=lambda cb: cb.d.get("vis") != "pub")
+                    return sorted(t["call"]["def"] for _, t in ex.calls() if not t["call"].get("local") and t["call"]["def"] not in TRANSP), c01.uses_b64_standard(ex)
+                ok = sig(b) == sig(c.methods_of_impl(pl["[u8]"])["fmt"]) and bool(sig(b)[0])
             ctx.check(ok, "R12.4", b.loc(), f"plain|{ty}", "Plain for Bytes must delegate to Plain for [u8]", instance="Bytes -> Plain for [u8]")
             continue
         ok = len(calls) == 1 and calls[0]["call"]["def"] == "core::fmt::Display::fmt" and tystr(calls[0]["call"]["substs"][0]) == ty
@@ -180,6 +245,35 @@ def run(ctx):
             roots, via = dt.transforming_calls(b, calls[0]["args"][0])
             ok = len(via) == 1 and via[0]["call"]["name"] in ("as_str", "as_ref", "deref", "borrow") and ty_adt(strip_refs(b.local_ty(place_local(op_place(via[0]["args"][0]))))) == ty_adt({"adt": ty}) \
                 and Tracer(b).root_locals(via[0]["args"][0]) == {1}
+        if not ok and len(calls) == 1 and calls[0]["call"]["def"] == "core::fmt::Display::fmt":
+            # or: formats the same component of the value, with the same std Display impl, as <Self as Display>::fmt does
+            # (e.g. both print the wrapped i64) — decided with the local accessors (Deref, as_*) spliced in
+            from .. import inline as _inline
+            dsp = [x for x in c.bodies if x.trait == "core::fmt::Display" and x.name == "fmt" and tystr(x.self_ty or {}) == ty]
+
+            def leaf(x):
+                ex = _inline.expand(c, x, depth=2)
+                lf = [t for _, t in ex.calls() if t["call"]["def"] == "core::fmt::Display::fmt"]
+                if len(lf) != 1 or [t for _, t in ex.calls() if t["call"]["name"] in ("write_str", "write_fmt", "pad")]:
+                    return None
+                srcs = Tracer(ex).sources(lf[0]["args"][0])
+
+                def norm(s_):
+                    if s_[0] == "field":
+                        return ("field", norm(s_[1]), tuple(e for e in thaw_list(s_[2]) if e is not None))
+                    return s_
+                return tystr(lf[0]["call"]["substs"][0]), frozenset(norm(s_) for s_ in srcs)
+
+            def thaw_list(fr):
+                from ..cfg import thaw
+                out = []
+                for e in thaw(fr):
+                    if isinstance(e, dict) and "f" in e:
+                        out.append(("f", e["f"]))
+                return out
+            if len(dsp) == 1:
+                la, lb = leaf(b), leaf(dsp[0])
+                ok = la is not None and la == lb
         ctx.check(ok, "R12.4", b.loc(), f"plain|{ty}", f"Plain for {ty} must resolve to <{ty} as Display>::fmt; found {[(t['call']['def'], tystr(t['call']['substs'][0])) for t in calls]}", instance=f"{ty}: Plain -> Display of Self")
     for ty, i in sorted(fp.items()):
         if ty in ("f64", "bytes::bytes::Bytes") or ty.startswith("chrono::"):
